@@ -5,6 +5,7 @@ import (
 	"fmt"
 	"os"
 	"path/filepath"
+	"runtime"
 	"sort"
 	"strconv"
 	"strings"
@@ -185,9 +186,24 @@ func WorkerMain(t *testing.T, e Engine) {
 	sum := &WorkerSummary{Engine: e.Name(), Property: prop, Worker: w, Stats: map[string]int64{}}
 	nontriv := map[string]bool{}
 	states := map[string]bool{}
-	for k := w; k < maxRuns*nw; k += nw {
+	// Worker recycling: goroutines that a finished run leaves blocked for ever inside its (ended) bubble keep that
+	// run's ledgers reachable, so a long-lived worker grows by up to a gigabyte per minute (a 1500 s ledgersim worker
+	// was OOM-killed at 37 GB). A worker therefore stops taking new runs once the Go runtime holds more than
+	// VERIF_MEM_MB (default 2500) and reports it; the driver starts a fresh wave of workers for the rest of the
+	// budget, continuing the seed sequence at VERIF_START runs per worker.
+	memCapMB := envInt("VERIF_MEM_MB", 2500)
+	first := envInt("VERIF_START", 0)
+	for k := w + first*nw; k < (first+maxRuns)*nw; k += nw {
 		if time.Since(start) > budget {
 			break
+		}
+		if !dump && sum.Evaluations > 0 {
+			var ms runtime.MemStats
+			runtime.ReadMemStats(&ms)
+			if ms.Sys > uint64(memCapMB)<<20 {
+				sum.Stats["worker_recycled_for_memory"] = 1
+				break
+			}
 		}
 		seed := DeriveSeed(base, e.Name()+"/"+prop+"/"+tier, uint64(k))
 		// breadcrumb: if the system under test panics and takes the process down, the driver still
